@@ -44,6 +44,33 @@ const sec = int64(time.Second)
 type bridgeSpec struct {
 	FP  string `json:"fp"` // hex
 	URL string `json:"url"`
+	// how the record is written in the bridge list: "" = all three members; "nourl" = the webSocketAddress
+	// member is absent (the bridge's configured relay URL is then empty; URL above is ignored);
+	// "noname" = displayName absent; "reordered" = members in another order (unknown members are refused by the loader, by design)
+	Form string `json:"form,omitempty"`
+}
+
+func (b bridgeSpec) line(i int) string {
+	name, _ := json.Marshal(fmt.Sprintf("b%d", i))
+	u, _ := json.Marshal(b.URL)
+	fp, _ := json.Marshal(b.FP)
+	switch b.Form {
+	case "nourl":
+		return fmt.Sprintf(`{"displayName":%s, "fingerprint":%s}`, name, fp)
+	case "noname":
+		return fmt.Sprintf(`{"webSocketAddress":%s, "fingerprint":%s}`, u, fp)
+	case "reordered":
+		return fmt.Sprintf(`{"fingerprint":%s,"webSocketAddress":%s,   "displayName":%s}`, fp, u, name)
+	}
+	return fmt.Sprintf(`{"displayName":%s, "webSocketAddress":%s, "fingerprint":%s}`, name, u, fp)
+}
+
+// configuredURL is the relay URL the list configures for this bridge.
+func (b bridgeSpec) configuredURL() string {
+	if b.Form == "nourl" {
+		return ""
+	}
+	return b.URL
 }
 
 type event struct {
@@ -183,8 +210,7 @@ func newContext(sc *scenario, metricsOut io.Writer) (*BrokerContext, error) {
 			bl = []bridgeSpec{{FP: defaultBridgeFP, URL: defaultBridgeURL}}
 		}
 		for i, br := range bl {
-			j, _ := json.Marshal(BridgeInfo{DisplayName: fmt.Sprintf("b%d", i), WebSocketAddress: br.URL, Fingerprint: br.FP})
-			b.Write(j)
+			b.WriteString(br.line(i))
 			b.WriteByte('\n')
 		}
 		if err := ctx.InstallBridgeListProfile(&b, sc.Allowed, sc.Presumed); err != nil {
